@@ -360,3 +360,8 @@ def check(ctx):
         elif isinstance(v, ast.Constant) and v.value is False:
             ctx.ob("R08-b", fill, "fill() reports 'no yield point' only on the path that did not await", not inside, node=r, by=("before any await",),
                    detail="" if not inside else "`return False` after awaiting")
+
+    # ---- R08-d a coroutine started from a worker thread joins a scope that may already be *effectively* cancelled (through an ancestor):
+    # delivery is restarted for it unconditionally, else its checkpoints do not raise and its operations take effect (shared with C03/R03-i)
+    from .walkers import join_restarts
+    join_restarts(ctx, "R08-d", ("AsyncIOBackend.run_async_from_thread.task_wrapper",), 1)
